@@ -151,4 +151,29 @@ def runProg (P : Prog) (times : Nat) (inputs : List (List UInt64)) (fuel : Nat :
         | .ok (ws, m', _) => go k (t + 1) m' ((ws.map showWord).reverse ++ acc) ws.length
     go times 0 m0 [] 0
 
+def hexNat (n : Nat) : String := String.ofList (Nat.toDigits 16 n)
+
+def showAccess (a : Layout.Access) : String :=
+  let k := match a.kind with
+    | .get => "G" | .set => "S" | .mem => "M" | .delay => "D"
+  s!"{k}:1:{a.pos}:{a.size}"
+
+/-- per sample `<trace>@<cursor>@<words of the global storage>` in the format of `harness/src/bin/c05.rs` (VM hook traces) -/
+def runTrace (P : Prog) (times : Nat) (inputs : List (List UInt64)) (fuel : Nat := 400) : String :=
+  let sr := (48000.0 : Float).toBits
+  match Machine.init fuel P sr with
+  | .error e => showErr e ++ " (init)"
+  | .ok m0 =>
+    let rec go (k : Nat) (t : Nat) (m : Machine) (acc : List String) : String :=
+      match k with
+      | 0 => "ok " ++ "|".intercalate acc.reverse
+      | k + 1 =>
+        match Machine.step fuel P m (nowWord t) (inputs.getD t []) with
+        | .error e => showErr e ++ s!" (t={t})"
+        | .ok (_, m', tr) =>
+          let trs := if tr.isEmpty then "." else ";".intercalate (tr.map showAccess)
+          let ws := if m'.st.data.isEmpty then "." else ",".intercalate (m'.st.data.map fun w => hexNat w.toNat)
+          go k (t + 1) m' (s!"{trs}@{m'.st.pos}@{ws}" :: acc)
+    go times 0 m0 []
+
 end Mimium.Mir
